@@ -34,11 +34,16 @@ const (
 // Null is the canonical form of NULL / nil.
 const Null = "null"
 
+// Any as Default.Canon: the database computes a value the harness cannot predict (CURRENT_TIMESTAMP).
+const Any = "*"
+
 // Default is one `default:` tag a kind accepts.
 type Default struct {
 	Tag   string // text after "default:"
 	Canon string // canonical form of the value a zero field ends up with
 	DB    bool   // evaluated by the database (expression / NULL), not by gorm
+	// NonCanonical: a numeric literal spelled differently from how gorm renders the parsed value in DDL (-1.50, 1e3, 0x10)
+	NonCanonical bool
 }
 
 // Kind is one field kind of the grammar.
@@ -67,6 +72,9 @@ type Kind struct {
 	ZeroCanon string
 }
 
+// GoString keeps rapid's draw log readable.
+func (k *Kind) GoString() string { return "kind(" + k.Name + ")" }
+
 // Gen draws a value; the flag reports a boundary value.
 func (k *Kind) Gen(t *rapid.T, label string) (reflect.Value, bool) { return k.gen(t, label) }
 
@@ -81,6 +89,16 @@ func (k *Kind) CanonRaw(raw interface{}) (string, error) {
 			return "x:", nil // nil ≡ empty for []byte
 		}
 		return Null, nil
+	}
+	if k.Group == "serializer" {
+		// a reader that deserialises hands back the field's Go value rather than the stored form
+		if rv := reflect.ValueOf(raw); rv.Type() == k.Type {
+			return k.canon(rv), nil
+		} else if k.Type.Kind() == reflect.Ptr && rv.Type() == k.Type.Elem() {
+			p := reflect.New(rv.Type())
+			p.Elem().Set(rv)
+			return k.canon(p), nil
+		}
 	}
 	return k.canonRaw(raw)
 }
@@ -144,6 +162,10 @@ func rawBool(raw interface{}) (string, error) {
 	case bool:
 		return cBool(v), nil
 	case int64:
+		if v == 0 || v == 1 {
+			return cBool(v == 1), nil
+		}
+	case float64: // the SQLite dialector declares bool columns "numeric": a model-less read reports float64
 		if v == 0 || v == 1 {
 			return cBool(v == 1), nil
 		}
@@ -211,7 +233,7 @@ var boundaryTimes = []time.Time{
 func genTime(t *rapid.T, label string) (time.Time, bool) {
 	if rapid.IntRange(0, 9).Draw(t, label+".tb") < 4 {
 		bt := rapid.SampledFrom(boundaryTimes).Draw(t, label+".bt")
-		if !bt.IsZero() {
+		if y := bt.Year(); y > 1 && y < 9999 { // the extremes stay in UTC: a zone offset would push them out of the years 1-9999 the driver's text format holds
 			bt = bt.In(rapid.SampledFrom(zones).Draw(t, label+".zone"))
 		}
 		return bt, true
@@ -269,7 +291,8 @@ func intKind(name string, typ reflect.Type, bits int) *Kind {
 		v.SetInt(int64(i))
 		return v
 	}
-	k.Defaults = []Default{{"42", cInt(42), false}, {"-7", cInt(-7), false}, {"(1+1)", cInt(2), true}, {"(abs(-7))", cInt(7), true}, {"null", cInt(0), true}}
+	k.Defaults = []Default{{Tag: "42", Canon: cInt(42), DB: false}, {Tag: "-7", Canon: cInt(-7), DB: false}, {Tag: "0", Canon: cInt(0), DB: false}, {Tag: "(1+1)", Canon: cInt(2), DB: true}, {Tag: "(abs(-7))", Canon: cInt(7), DB: true}, {Tag: "null", Canon: cInt(0), DB: true},
+		{Tag: "0x10", Canon: cInt(16), NonCanonical: true}, {Tag: "+5", Canon: cInt(5), NonCanonical: true}}
 	if bits == 64 {
 		k.AutoTime = []string{"", "milli", "nano"}
 	} else if bits == 32 {
@@ -304,7 +327,7 @@ func uintKind(name string, typ reflect.Type, bits int) *Kind {
 		v.SetUint(uint64(i))
 		return v
 	}
-	k.Defaults = []Default{{"42", cUint(42), false}, {"(1+1)", cUint(2), true}, {"null", cUint(0), true}}
+	k.Defaults = []Default{{Tag: "42", Canon: cUint(42), DB: false}, {Tag: "(1+1)", Canon: cUint(2), DB: true}, {Tag: "null", Canon: cUint(0), DB: true}}
 	if bits == 64 {
 		k.AutoTime = []string{"", "milli", "nano"}
 	} else if bits == 32 {
@@ -315,7 +338,7 @@ func uintKind(name string, typ reflect.Type, bits int) *Kind {
 
 func floatKind(name string, typ reflect.Type, bits int) *Kind {
 	k := &Kind{Name: name, Group: "float", Type: typ, Family: FFloat, ZeroCanon: cFloat(0)}
-	bounds := []float64{0, math.Copysign(0, -1), 1.1, -1.5, 0.1, math.MaxFloat64, math.SmallestNonzeroFloat64, 1e15, 16777217, -1e-300}
+	bounds := []float64{0, 1.1, -1.5, 0.1, math.MaxFloat64, math.SmallestNonzeroFloat64, 1e15, 16777217, -1e-300}
 	if bits == 32 {
 		bounds = []float64{0, 1.1, -1.5, 0.1, math.MaxFloat32, math.SmallestNonzeroFloat32, 16777216, -3.4e38}
 	}
@@ -328,6 +351,9 @@ func floatKind(name string, typ reflect.Type, bits int) *Kind {
 			f = float64(rapid.Float32Range(-1e6, 1e6).Draw(t, label+".f"))
 		} else {
 			f = rapid.Float64Range(-1e12, 1e12).Draw(t, label+".f")
+		}
+		if f == 0 {
+			f = 0 // SQLite stores REAL -0.0 as integer 0: the sign of zero is not representable in the column
 		}
 		v := reflect.New(typ).Elem()
 		v.SetFloat(f)
@@ -342,7 +368,8 @@ func floatKind(name string, typ reflect.Type, bits int) *Kind {
 		v.SetFloat(float64(i) + 0.5)
 		return v
 	}
-	k.Defaults = []Default{{"1.5", cFloat(1.5), false}, {"(1.5*2)", cFloat(3), true}, {"null", cFloat(0), true}}
+	k.Defaults = []Default{{Tag: "1.5", Canon: cFloat(1.5), DB: false}, {Tag: "-0.25", Canon: cFloat(-0.25), DB: false}, {Tag: "(1.5*2)", Canon: cFloat(3), DB: true}, {Tag: "null", Canon: cFloat(0), DB: true},
+		{Tag: "-1.50", Canon: cFloat(-1.5), NonCanonical: true}, {Tag: "1e3", Canon: cFloat(1000), NonCanonical: true}}
 	return k
 }
 
@@ -356,7 +383,7 @@ func boolKind() *Kind {
 	k.canonRaw = rawBool
 	k.dbValue = func(v reflect.Value) interface{} { return v.Bool() }
 	k.distinct = func(i int) reflect.Value { return reflect.ValueOf(true) }
-	k.Defaults = []Default{{"true", cBool(true), false}, {"false", cBool(false), false}, {"(1=1)", cBool(true), true}}
+	k.Defaults = []Default{{Tag: "true", Canon: cBool(true), DB: false}, {Tag: "false", Canon: cBool(false), DB: false}, {Tag: "(1=1)", Canon: cBool(true), DB: true}}
 	return k
 }
 
@@ -371,8 +398,8 @@ func stringKind() *Kind {
 	k.canonRaw = rawStr
 	k.dbValue = func(v reflect.Value) interface{} { return v.String() }
 	k.distinct = func(i int) reflect.Value { return reflect.ValueOf(fmt.Sprintf("k'%d", i)) }
-	k.Defaults = []Default{{"'abc'", cStr("abc"), false}, {"hello", cStr("hello"), false}, {"'a b'", cStr("a b"), false},
-		{"('a'||'b')", cStr("ab"), true}, {"null", cStr(""), true}}
+	k.Defaults = []Default{{Tag: "'abc'", Canon: cStr("abc"), DB: false}, {Tag: "hello", Canon: cStr("hello"), DB: false}, {Tag: "'a b'", Canon: cStr("a b"), DB: false}, {Tag: "'a,b'", Canon: cStr("a,b"), DB: false},
+		{Tag: "('a'||'b')", Canon: cStr("ab"), DB: true}, {Tag: "null", Canon: cStr(""), DB: true}}
 	return k
 }
 
@@ -413,8 +440,10 @@ func timeKind() *Kind {
 		return reflect.ValueOf(time.Date(2000, 1, 1, 0, 0, i, 0, time.UTC))
 	}
 	k.Defaults = []Default{
-		{"(datetime('2001-02-03 04:05:06'))", cTime(time.Date(2001, 2, 3, 4, 5, 6, 0, time.UTC)), true},
-		{"null", cTime(time.Time{}), true},
+		{Tag: "(datetime('2001-02-03 04:05:06'))", Canon: cTime(time.Date(2001, 2, 3, 4, 5, 6, 0, time.UTC)), DB: true},
+		{Tag: "null", Canon: cTime(time.Time{}), DB: true},
+		{Tag: "2001-02-03 04:05:06", Canon: cTime(time.Date(2001, 2, 3, 4, 5, 6, 0, time.Local))},
+		{Tag: "CURRENT_TIMESTAMP", Canon: Any, DB: true},
 	}
 	k.AutoTime = []string{""}
 	return k
@@ -431,6 +460,11 @@ func pointerKind(base *Kind) *Kind {
 			return v, true
 		}
 		e, b := base.gen(t, label)
+		if base.Family == FBytes && e.Kind() == reflect.Slice && e.IsNil() {
+			// database/sql dereferences the pointer and binds a nil slice as NULL: a
+			// pointer to a nil slice is not representable as distinct from a nil pointer
+			e = reflect.ValueOf([]byte{})
+		}
 		p := reflect.New(base.Type)
 		p.Elem().Set(e)
 		v.Set(p)
@@ -457,7 +491,7 @@ func pointerKind(base *Kind) *Kind {
 	// a literal default fills a nil pointer; an expression default / NULL leaves NULL → nil unless returned
 	for _, d := range base.Defaults {
 		if d.Tag == "null" {
-			k.Defaults = append(k.Defaults, Default{"null", Null, true})
+			k.Defaults = append(k.Defaults, Default{Tag: "null", Canon: Null, DB: true})
 		} else {
 			k.Defaults = append(k.Defaults, d)
 		}
@@ -791,6 +825,7 @@ func unixtimeKind(base *Kind, ptr bool) *Kind {
 	if ptr {
 		k.ZeroCanon = Null
 	}
+	k.distinct = func(i int) reflect.Value { return set(int64(i)) }
 	k.gen = func(t *rapid.T, label string) (reflect.Value, bool) {
 		if ptr && rapid.IntRange(0, 3).Draw(t, label+".nil") == 0 {
 			return reflect.New(typ).Elem(), true
